@@ -287,13 +287,16 @@ def commit (s : St) : St × Out :=
 
 /-- a process restart at a block boundary: every ledger reopened on its last saved version,
     governance parameters reloaded from the parameter ledger, in-memory stake state rebuilt
-    as `NewStakeCtrler` does (`allDelegatees` nil, hence `lastValidators` empty, limiter nil) -/
+    as `NewStakeCtrler` does: `allDelegatees` nil and the limiter nil (both recomputed by the next
+    BeginBlock), `lastValidators` restored from the record persisted by `StakeCtrler.Commit`
+    (at a block boundary that record equals the in-memory list: it is written at every commit and
+    the list changes only in EndBlock) -/
 def restart (s : St) : St :=
   let params := s.params.reopen
   { s with accts := s.accts.reopen, delegs := s.delegs.reopen, frozen := s.frozen.reopen, rewards := s.rewards.reopen,
            params := params, props := s.props.reopen, fprops := s.fprops.reopen,
            active := (params.committed[zeroHash]?).getD s.active, pending := none,
-           allDelegs := [], lastVals := [], limiter := {}, blk := none }
+           allDelegs := [], limiter := {}, blk := none }
 
 def step (s : St) : Op → St × Out
   | .init g => (initChain g, {})
